@@ -14,6 +14,7 @@ import (
 	"github.com/Comcast/sheens/verifrt/sched"
 	"github.com/Comcast/sheens/verifrt/snap"
 	"github.com/Comcast/sheens/verifrt/tickctx"
+	"github.com/Comcast/sheens/verifrt/vbolt"
 	"github.com/Comcast/sheens/verifrt/vh"
 )
 
@@ -32,6 +33,19 @@ nodes:
       - pattern:
           emit: "?e"
         target: emit
+      - pattern:
+          half: "?h"
+        target: half
+  half:
+    action:
+      interpreter: ecmascript
+      source: |-
+        var c = _.bindings.count || 0;
+        if (c % 2 == 1) { return {count: 1/0}; }
+        return {count: c + 1};
+    branching:
+      branches:
+      - target: start
   bump:
     action:
       interpreter: ecmascript
@@ -100,6 +114,7 @@ var svcSeq int
 
 func newSvc(dir string) (*svcEnv, error) {
 	svcSeq++
+	vbolt.FailUpdates = 0
 	file := filepath.Join(dir, fmt.Sprintf("db-%d.bolt", svcSeq%4))
 	os.Remove(file)
 	ctx, cancel := context.WithCancel(context.Background())
@@ -128,12 +143,17 @@ func (e *svcEnv) do(ctx context.Context, op svcOp) string {
 		return errStr(s.AddMachine(ctx, "counter", op.Id, "start", nil))
 	case "rem":
 		return errStr(s.RemMachine(ctx, op.Id))
-	case "inc", "poison", "bcast":
+	case "inc", "poison", "bcast", "half":
 		msg := map[string]interface{}{"inc": 1.0}
 		if op.K == "poison" {
 			msg = map[string]interface{}{"poison": 1.0}
 		}
-		if op.K != "bcast" {
+		if op.K == "half" {
+			// a broadcast that some machines of the batch survive (even count: count+1) and others do not
+			// (odd count: a value that cannot be stored)
+			msg = map[string]interface{}{"half": 1.0}
+		}
+		if op.K != "bcast" && op.K != "half" {
 			msg["to"] = op.Id
 		}
 		ws, err := s.Process(ctx, msg, nil)
@@ -148,6 +168,10 @@ func (e *svcEnv) do(ctx context.Context, op svcOp) string {
 			return "ERR"
 		}
 		return strings.Join(parts, ",")
+	case "failnext", "failcommit":
+		// the next write transaction fails (before it starts / when it commits), then the store is healthy again
+		vbolt.FailUpdates, vbolt.FailAtCommit = 1, op.K == "failcommit"
+		return ""
 	case "down":
 		if !e.down {
 			s.store.Close(ctx)
@@ -251,8 +275,8 @@ func c16Seq(c *vh.Ctx, dir string, cs c16SeqCase) {
 		if e.down {
 			updown = "store-down"
 		}
-		failed := res == "ERR" || (op.K != "inc" && op.K != "bcast" && op.K != "poison" && op.K != "read" && res != "")
-		if failed && (op.K == "add" || op.K == "rem" || op.K == "inc" || op.K == "bcast" || op.K == "poison") {
+		failed := res == "ERR" || (op.K != "inc" && op.K != "bcast" && op.K != "poison" && op.K != "half" && op.K != "read" && res != "")
+		if failed && (op.K == "add" || op.K == "rem" || op.K == "inc" || op.K == "bcast" || op.K == "poison" || op.K == "half") {
 			c.Nontrivial()
 			if after := snap.Of(e.s.crew.Machines); after != before {
 				c.Violation("C16/failed-operation-changed-the-crew/"+op.K+"/"+updown, fmt.Sprintf("ops %v: %s failed (%s) but the in-memory crew changed from [%s] to [%s]", cs.Ops[:i+1], op, res, memBefore, e.memory()), c16SeqCase{Ops: cs.Ops[:i+1]})
@@ -424,9 +448,9 @@ func C16(c *vh.Ctx) {
 		return
 	}
 	maxLen := c.Pick(4, 5)
-	alphabet := []svcOp{{K: "add", Id: "m1"}, {K: "add", Id: "m2"}, {K: "add", Id: ""}, {K: "rem", Id: "m1"}, {K: "inc", Id: "m1"}, {K: "bcast"}, {K: "poison", Id: "m1"}, {K: "down"}, {K: "up"}}
+	alphabet := []svcOp{{K: "add", Id: "m1"}, {K: "add", Id: "m2"}, {K: "add", Id: ""}, {K: "rem", Id: "m1"}, {K: "inc", Id: "m1"}, {K: "bcast"}, {K: "poison", Id: "m1"}, {K: "half"}, {K: "down"}, {K: "up"}, {K: "failnext"}, {K: "failcommit"}}
 	c.Bound("fault_sequence_max", maxLen)
-	c.Rule("(sequential fault sequences) every operation sequence up to the bound over {add m1, add m2, add \"\", remove m1, process->m1, process broadcast, process a message that makes m1's bindings unserialisable, store stops working, store works again} on a real Service over a real bolt file (tmpfs); after every operation the in-memory crew must equal the stored crew (read back through a second handle while the store is down), and an operation that failed must not have changed the crew. (schedules) 2-3 client threads issuing process / add / remove / read-crew with yield points inside the machine's action and at the shimmed crew lock, store healthy or failing, every schedule within the deviation bound; the per-operation results and the final (memory, store) must equal those of some sequential order of the operations (the service itself, run sequentially, is the reference), and memory must equal the store. states = sequences + scenarios, transitions = operations + scheduler steps.")
+	c.Rule("(sequential fault sequences) every operation sequence up to the bound over {add m1, add m2, add \"\", remove m1, process->m1, process broadcast, process a message that makes m1's bindings unserialisable, a broadcast that only some machines of the batch survive (the others end with a value that cannot be stored), store stops working, store works again, the next write transaction fails before it starts, the next write transaction fails at commit} on a real Service over a real bolt file (tmpfs); after every operation the in-memory crew must equal the stored crew (read back through a second handle while the store is down), and an operation that failed must not have changed the crew. (schedules) 2-3 client threads issuing process / add / remove / read-crew with yield points inside the machine's action and at the shimmed crew lock, store healthy or failing, every schedule within the deviation bound; the per-operation results and the final (memory, store) must equal those of some sequential order of the operations (the service itself, run sequentially, is the reference), and memory must equal the store. states = sequences + scenarios, transitions = operations + scheduler steps.")
 	var idx uint64
 	var rec func(cur []svcOp)
 	rec = func(cur []svcOp) {
